@@ -263,10 +263,16 @@ def run(ctx):
                 fams[fam] = fams.get(fam, 0) + 1
                 live = LIVESET[fam]
                 table = {}
+                from evalrel import resolve_phi
                 for rel in ('<', '=', '>'):
                     vals = set()
+                    ev = Evaluator(prog, sites, rel)
+                    blocks, edges, undec = region(b, ev, 0, None, set())
                     for rb in b.cfg.returns:
-                        vals.add(Evaluator(prog, sites, rel).ev(b.ret_val[rb]))
+                        if rb not in blocks:
+                            continue
+                        for rv in resolve_phi(b.ret_val[rb], edges, {}):
+                            vals.add(ev.ev(rv))
                     table[rel] = vals.pop() if len(vals) == 1 else None
                 line = span_line(sites[0]['call'], fn.line)
                 det = {'table': table, 'time': time_desc(fn, sites[0]['time'])}
@@ -375,7 +381,9 @@ def check_cache_guard(ctx, prog, fn, bb, d, sites, pred_calls, props, line):
     b = fn.body
     problems = []
     table = {}
-    purge_blocks = [c.point[0] for c in b.calls if c.callee_name() in ('retain', 'retain_mut')]
+    from rules.gate import purge_fns
+    pf = purge_fns(prog)
+    purge_blocks = [c.point[0] for c in b.calls if c.callee_name() in ('retain', 'retain_mut') or (prog.resolve(c) is not None and prog.resolve(c).path in pf)]
     for rel in ('<', '=', '>'):
         ev = Evaluator(prog, sites, rel, pred_calls)
         if ev.ev(d) is None:
